@@ -90,6 +90,8 @@ def gen_cache_case(rng, kind, i, profile=None, nops=None):
             lines.append(f"I {k} {gen_value(rng, cfg)}")
         elif o in ("G", "C", "X"):
             lines.append(f"{o} {k}")
+        elif o == "T" and rng.random() < 0.2:
+            lines.append(f"TD {gen_advance(rng, cfg, kind == 'sync')}")      # an iteration spanning a clock advance
         elif o in ("T", "A", "S"):
             lines.append(o)
         elif o == "P":
@@ -415,7 +417,10 @@ def gen_window_case(rng, kind, i):
     if kind == "sync" and rng.random() < (0.15 if xbranch else 0.6):
         lines.append("S")
     b = rng.choice([d - a, d - a + 1, d - a - 1 if d - a > 1 else 1])
-    lines.append(f"D {b}")                       # around the write-based deadline of keys 1, 2
+    if not xbranch and rng.random() < 0.3:
+        lines.append(f"TD {b}")                  # the iterator is created before, drained after the advance
+    else:
+        lines.append(f"D {b}")                   # around the write-based deadline of keys 1, 2
     if xbranch:
         # invalidate inside the window: an entry that looks expired by its stored timestamps may still be
         # alive (concurrent cache: a recorded hit not applied yet); invalidated it must stay gone
@@ -473,7 +478,8 @@ def gen_window_grid(kind):
                            "weigher": "none", "hasher": "id"}
                     S = ["S"] if kind == "sync" and n % 2 == 0 else []
                     lines = [cfg_line(cfg), "I 1 10", "I 2 20"] + S + [f"D {a * SEC}", what] + (S if n % 4 == 0 else []) + \
-                            [f"D {(t - a) * SEC}", "T", "C 1", "G 1", "C 2", "T"] + (["S", "T"] if kind == "sync" else [])
+                            ([f"TD {(t - a) * SEC}"] if n % 3 == 1 else [f"D {(t - a) * SEC}", "T"]) + \
+                            ["C 1", "G 1", "C 2", "T"] + (["S", "T"] if kind == "sync" else [])
                     cases.append((f"{kind[0]}{n}_grid_{ttl}_{tti}_{a}_{t}", lines))
                     n += 1
     return cases
